@@ -96,6 +96,11 @@ func (s *IndexWriterBuilder) NewIndexWriters(dir, msName, dataFilePath, lockPath
 		} else {
 			tokens = tokenizer.GetFullTextOption(&indexRelation).Tokens
 		}
+		if tokens == "" {
+			// an index created without a tokens option (CREATE MEASUREMENT ... INDEXTYPE bloomfilter: an IndexOptions entry
+			// without options) splits values the way the readers split phrases: by the default split characters
+			tokens = tokenizer.GetFullTextOption(&indexRelation).Tokens
+		}
 		indexWriter := NewIndexWriter(dir, msName, dataFilePath, lockPath, indextype.IndexType(indexRelation.Oids[i]), tokens)
 		if indexWriter == nil {
 			continue
